@@ -21,6 +21,8 @@
 From Coq Require Import List Arith Bool ZArith String.
 From FoVerif Require Import Front.Term Front.TermProofs Front.ListLoop.
 From FoVerif Require Import Core.Resolve Core.ResolveProofs Driver.FileDriver Driver.FileDriverProofs.
+From Coq Require Import NArith.
+From FoVerif Require Core.Resolver Core.ResolverBound Core.ResolverBoundProofs.
 Import ListNotations.
 
 (* ------------------------------------------------------------------ scanners *)
@@ -376,3 +378,19 @@ Example C16_example_write_failure :          (* destination is a directory *)
   /\ transpile_files nat ex_translate fo_is_fo (fun _ => "gen_locked.go"%string) ["b.fo"]%string 0 ex_fs
      = Failed 0 WriteFail 0 ex_fs.
 Proof. split; vm_compute; reflexivity. Qed.
+
+(* ---- the bounded fixpoint loop of type inference (fc/infer.fo updateResolverN, Core/ResolverBound.v):
+   1000 rounds / 100000 produced relations, then the diagnostic "Type inference does not converge".
+   Termination for every resolver and every relation list; on converging inputs the bound changes nothing. *)
+Theorem C16_type_inference_loop_terminates : forall later enum fuel st rels,
+  (1002 <= N.of_nat fuel)%N -> ResolverBound.update_resolver_b later enum fuel st rels <> ResolverBound.BFuel.
+Proof. exact ResolverBoundProofs.update_resolver_b_terminates. Qed.
+Print Assumptions C16_type_inference_loop_terminates.
+
+Theorem C16_type_inference_bound_changes_nothing_on_converging_input : forall later enum fuel st rels st' g r w,
+  Resolver.update_resolver later enum fuel st rels = Resolver.LDone st' g ->
+  ResolverBound.run_stats later enum fuel st rels = Some (r, w) ->
+  (r <= ResolverBound.round_bound)%N -> (w <= ResolverBound.work_bound)%N ->
+  ResolverBound.update_resolver_b later enum fuel st rels = ResolverBound.BDone st' g.
+Proof. exact ResolverBoundProofs.update_resolver_b_agrees. Qed.
+Print Assumptions C16_type_inference_bound_changes_nothing_on_converging_input.
